@@ -159,6 +159,36 @@ func verifCanary(label string, cond bool) {}
 //@ pred itemsInv(s *MonitoredItemService) := s.SubService != nil && s.SubService.srv != nil && s.SubService.srv.cfg != nil &&
 //@     (forall k uint32 :: { in(k, s.Items) } in(k, s.Items) ==> s.Items[k] != nil && s.Items[k].Sub != nil)
 
+// ids come from a counter: every id in use is at most the counter
+//@ pred itemIDsInv(s *MonitoredItemService) := s.Items != nil && s.Nodes != nil && s.Subs != nil &&
+//@     (forall k uint32 :: { in(k, s.Items) } in(k, s.Items) ==> k <= s.id && k != 0)
+
+//@ func (*MonitoredItemService).NextID
+//@   props C32
+//@   requires s != nil && s.id < 4294967295
+//@   assigns s.id
+//@   ensures [C32:next] result == old(s.id) + 1 && s.id == result && result != 0
+
+//@ func (*MonitoredItemService).CreateMonitoredItems
+//@   props C32 C29
+//@   requires s != nil && itemsInv(s) && itemIDsInv(s) && s.SubService.Subs != nil && subsInv(s.SubService)
+//@   requires [arg] typeis(r, *ua.CreateMonitoredItemsRequest) ==> dyn(r, *ua.CreateMonitoredItemsRequest) != nil &&
+//@            dyn(r, *ua.CreateMonitoredItemsRequest).RequestHeader != nil &&
+//@            len(dyn(r, *ua.CreateMonitoredItemsRequest).ItemsToCreate) <= 2147483647 &&
+//@            (forall k int :: { dyn(r, *ua.CreateMonitoredItemsRequest).ItemsToCreate[k] } 0 <= k && k < len(dyn(r, *ua.CreateMonitoredItemsRequest).ItemsToCreate) ==>
+//@                dyn(r, *ua.CreateMonitoredItemsRequest).ItemsToCreate[k] != nil &&
+//@                dyn(r, *ua.CreateMonitoredItemsRequest).ItemsToCreate[k].ItemToMonitor != nil &&
+//@                dyn(r, *ua.CreateMonitoredItemsRequest).ItemsToCreate[k].RequestedParameters != nil)
+//@   requires [bounded] s.id < 4294967295 - 4294967295 / 2
+//@   assigns *
+//@   after "ua.NewExtensionObject(nil)" assigns nothing
+//@   ensures [C32:typed] err == nil ==> typeis(r, *ua.CreateMonitoredItemsRequest) && typeis(result0, *ua.CreateMonitoredItemsResponse)
+//@   loop 0 invariant -1 <= rangeindex && rangeindex < len(req.ItemsToCreate) && len(res) == len(req.ItemsToCreate)
+//@   loop 0 invariant itemIDsInv(s) && s.id >= old(s.id) && int(s.id) == int(old(s.id)) + rangeindex + 1
+//@   loop 0 invariant [C32:fresh-item-ids] forall k int :: { res[k] } 0 <= k && k <= rangeindex ==> res[k] != nil &&
+//@           res[k].MonitoredItemID == old(s.id) + uint32(k) + 1
+//@   loop 0 decreases len(req.ItemsToCreate) - rangeindex
+
 //@ func (*MonitoredItemService).SetMonitoringMode
 //@   props C32 C29
 //@   requires s != nil && itemsInv(s)
